@@ -962,6 +962,12 @@ class C16(PropertyCheck):
                 ans = S.parse_answer(o)
                 if ans[0] != "ok":
                     diff = "model refused"
+                elif "exc" in rec and rec["exc"].split(":")[0] in NOT_EVALUABLE:
+                    # runtime numerics (solver step limit, singular system …), not a purity question: the rest of
+                    # the history is not compared
+                    res.hist["device-not-evaluable=" + rec["exc"].split(":")[0]] = \
+                        res.hist.get("device-not-evaluable=" + rec["exc"].split(":")[0], 0) + 1
+                    break
                 elif "exc" in rec:
                     diff = f"call {k} raised {rec['exc']}"
                 else:
